@@ -79,6 +79,7 @@ static inline Result parse(const std::string &s, const std::vector<Method> &meth
     Method method = methods[qi];
     Resp m; m.begin = pos;
     auto stop = [&](Term t, const std::string &why) { R.term = t; R.reason = why; R.term_pos = m.begin; R.term_features = m.features; R.term_framing = m.framing; };
+    if (!R.msgs.empty() && R.msgs.back().framing == FR_TUNNEL) { stop(T_MAY, "tunnel"); return R; }
     if (!R.msgs.empty() && R.msgs.back().must_not_reuse) { stop(T_NOREUSE, "close-option"); return R; }
     if (!R.msgs.empty() && R.msgs.back().may_not_reuse) { stop(T_MAY, "persistence-is-recipients-call"); return R; }
     if (pos >= s.size()) { stop(T_END, ""); R.term_pos = pos; return R; }
@@ -132,8 +133,9 @@ static inline Result parse(const std::string &s, const std::vector<Method> &meth
     for (auto &f : m.headers) { std::string n = lower(f.name);
       if (n == "transfer-encoding") { te.push_back(f.value); if (f.htab_lead) m.features |= C_HTAB_FRAMING; }
       else if (n == "content-length") { cl.push_back(f.value); if (f.htab_lead) m.features |= C_HTAB_FRAMING; }
-      else if (n == "connection") { m.features |= C_CONN_FIELD; if (f.htab_lead) m.features |= C_HTAB_FRAMING;
-        for (auto &e : split_commas(f.value)) { std::string le = lower(e); if (le == "close") { m.must_not_reuse = true; m.features |= C_CLOSE_OPT; if (lower(f.value) == "close") m.features |= C_CLOSE_OPT_PLAIN; } if (le == "keep-alive") keepalive = true; } } }
+      else if (n == "connection") { bool first = !(m.features & C_CONN_FIELD); m.features |= C_CONN_FIELD; if (f.htab_lead) m.features |= C_HTAB_FRAMING;
+        if (first && lower(f.value) == "close") m.features |= C_CLOSE_OPT_PLAIN;    // the plainest spelling: first Connection line, sole element
+        for (auto &e : split_commas(f.value)) { std::string le = lower(e); if (le == "close") { m.must_not_reuse = true; m.features |= C_CLOSE_OPT; } if (le == "keep-alive") keepalive = true; } } }
     if (qi < req_close.size() && req_close[qi]) m.must_not_reuse = true;   // we sent the close option ourselves: no further request on this connection
     if (m.minor == 0 && !keepalive) m.may_not_reuse = true;               // 9.3
     // ---- message body length (RFC 9112 6.3)
@@ -141,7 +143,7 @@ static inline Result parse(const std::string &s, const std::vector<Method> &meth
     if (method == M_HEAD) m.features |= C_HEAD;
     if (m.status == 204 || m.status == 304) m.features |= C_BODILESS_STATUS;
     if (method == M_CONNECT && m.status >= 200 && m.status < 300) {        // rule 2: tunnel, Content-Length / Transfer-Encoding MUST be ignored
-      m.framing = FR_TUNNEL; m.features |= C_CONNECT_2XX; m.end = pos; m.may_not_reuse = true; R.term_headers_done = false; R.msgs.push_back(m); continue;
+      m.framing = FR_TUNNEL; m.features |= C_CONNECT_2XX; m.end = pos; m.may_not_reuse = true; m.must_not_reuse = false;   /* what follows is tunnel data: no claim */ R.term_headers_done = false; R.msgs.push_back(m); continue;
     }
     if (method == M_CONNECT) m.features |= C_CONNECT_OTHER;
     if (!te.empty()) {
